@@ -19,6 +19,7 @@ CONSTANTS
   LevelKinds = {"node", "module", "param"}
   Kinds = {"updateEvent"}
   Behs = {"ok", "oneshot"}
+  ErrBehs = {"raise"}
   InitDescs <- StdInit
   Descs <- StdDescs
   MaxCbs = 2
